@@ -547,6 +547,13 @@ pub fn run_history(rng: &mut Rng, cfg: &HistCfg, dir: &Path, tag: &str) -> HistR
         }
     }
     let all: Vec<usize> = (0..w.clients.len()).filter(|i| Some(*i) != w.groups[g].oracle && w.groups[g].invited.contains(i)).collect();
+    // Commits that members produce while catching up during the fixpoint (an admin that reaches a
+    // state late and auto-commits a queued leave) get a wrapper timestamp later than everything
+    // published so far - as a wall clock would give them. Otherwise such a commit could tie with,
+    // and by its random id beat, a commit of a state the oracle replica has already left: the
+    // reference chain would then be wrong, not the members (a false alarm seen once at seed 1).
+    let latest = w.log.iter().map(|p| p.ev.created_at.as_secs()).max().unwrap_or(0);
+    w.t = w.t.max(latest) + 1;
     let mut fix_rollbacks = 0;
     let (passes, reached_fix) = w.fixpoint(g, &all, sim.causal, sim.proposals_first, 12, |w2, m, _i, d| {
         fix_rollbacks += d.rollbacks.len();
